@@ -668,3 +668,31 @@ pub fn rec_link(a: &Args, out: &mut Out) {
         out.emit(json!({"ev": "LinkEnd", "delivered": delivered, "base": base, "digests": got_digests}));
     }
 }
+
+/// replay of Gen_Frame vectors: MessageFrame::new on spec-chosen slices, compared with the
+/// outcomes the specification admits and the observations it fixes
+pub fn replay_frames(a: &Args, out: &mut Out) {
+    let input = std::fs::read_to_string(a.str("in", "")).expect("vectors");
+    let mut n = 0usize;
+    for (vi, line) in input.lines().enumerate() {
+        let v: J = match serde_json::from_str(line) {
+            Ok(v) => v,
+            Err(_) => continue,
+        };
+        n += 1;
+        let bytes: Vec<u8> = v["bytes"].as_array().unwrap().iter().map(|x| x.as_u64().unwrap() as u8).collect();
+        let o = observe_new(&bytes, false);
+        let adm: Vec<String> = v["admissible"].as_array().unwrap().iter().map(|x| x.as_str().unwrap().to_string()).collect();
+        let got = o["out"].as_str().unwrap_or("?").to_string();
+        let mut ok = adm.contains(&got);
+        if ok && got == "ok" {
+            let e = &v["obs"];
+            ok = o["flen"] == e["flen"] && o["dlen"] == e["dlen"] && o["crc"] == e["crc"] && o["num"] == e["num"]
+                && o["data"] == json!([3, e["dlen"]]) && o["frame"] == json!([0, e["flen"]]);
+        }
+        if !ok {
+            out.emit(json!({"ev": "Mismatch", "vector_index": vi, "vector": v, "got": o}));
+        }
+    }
+    out.emit(json!({"ev": "ReplaySummary", "vectors": n}));
+}
